@@ -191,6 +191,29 @@ def leaf_state(r, tag="leafcell"):
 
 # ---- exec ------------------------------------------------------------------------------------------
 
+def leaf_with_leftover():
+    """Node::exec on a Leaf whose handler (an event: it does not touch the stream) leaves data elements of its unit
+    unread: list of (stream description, [PathInfo])"""
+    if "leftover" in _CACHE:
+        return _CACHE["leftover"]
+    eng = engine()
+    body = eng.unit.body(EXEC)
+    out = []
+    for stream in (["ProgramHeaderSeparator", "DecimalNumericProgramData", M.END],
+                   ["ProgramHeaderSeparator", "DecimalNumericProgramData", "ProgramDataSeparator", "StringProgramData", M.END],
+                   ["ProgramHeaderSeparator", "CharacterProgramData", "ProgramMessageUnitSeparator"],
+                   ["HeaderQuerySuffix", "ProgramHeaderSeparator", "DecimalNumericProgramData", M.END],
+                   ["HeaderQuerySuffix", "ProgramHeaderSeparator", "ExpressionProgramData", "ProgramDataSeparator", "DecimalNumericProgramData", "ProgramMessageUnitSeparator"]):
+        st = fdai.State()
+        M.set_stream(st, [M.item(eng, n) if n != M.END else M.END for n in stream] + ([] if stream[-1] == M.END else [M.UNKNOWN]))
+        node = mk_node(eng, "Leaf")
+        args, leafcell, selfcell = mk_args(node)
+        st.extra["cells"] = {"leaf": leafcell, "self": selfcell}
+        out.append(("/".join(stream), [PathInfo(r) for r in eng.run(body, args, st)]))
+    _CACHE["leftover"] = out
+    return out
+
+
 def exec_table():
     """(kind, first, second) -> list of PathInfo. second only varies after a leading ':' on a Branch
     and after '?' on a Leaf."""
